@@ -1150,9 +1150,40 @@ def _len_arg(node):
   return None
 
 
-def _set_over(node):
-  """If node builds a set/dict keyed by the elements (or their id) of a name,
-  returns that name."""
+_PROJECTING_BUILTINS = {"str", "repr", "type"}
+
+
+def _key_kind(key, v):
+  """How the key expression of a duplicate-detecting set depends on the element
+  variable `v`: "identity" (the element itself / id(element): what CPython's
+  duplicate-base test compares), "projection" (an attribute chain of the
+  element or its str/repr/type: distinct class objects can share it), or None
+  (not understood)."""
+  if isinstance(key, ast.Name) and key.id == v:
+    return "identity"
+  if isinstance(key, ast.Call) and len(key.args) == 1 and not key.keywords and \
+      isinstance(key.args[0], ast.Name) and key.args[0].id == v:
+    d = dotted(key.func)
+    if d == "id":
+      return "identity"
+    if d in _PROJECTING_BUILTINS:
+      return "projection"
+    return None
+  if isinstance(key, ast.Call) and dotted(key.func) == "getattr" and \
+      len(key.args) == 2 and isinstance(key.args[0], ast.Name) and \
+      key.args[0].id == v and isinstance(key.args[1], ast.Constant):
+    return "projection"
+  node = key
+  while isinstance(node, ast.Attribute):
+    node = node.value
+  if node is not key and isinstance(node, ast.Name) and node.id == v:
+    return "projection"
+  return None
+
+
+def _set_over_kind(node):
+  """If node builds a set/dict keyed by a function of the elements of a name,
+  returns (that name, kind of the key (see _key_kind), source of the key)."""
   if isinstance(node, (ast.SetComp, ast.DictComp)):
     if len(node.generators) != 1 or node.generators[0].ifs:
       return None
@@ -1160,41 +1191,68 @@ def _set_over(node):
     key = node.elt if isinstance(node, ast.SetComp) else node.key
     if not isinstance(g.target, ast.Name) or not isinstance(g.iter, ast.Name):
       return None
-    v = g.target.id
-    if isinstance(key, ast.Name) and key.id == v:
-      return g.iter.id
-    if isinstance(key, ast.Call) and dotted(key.func) == "id" and \
-        len(key.args) == 1 and isinstance(key.args[0], ast.Name) and \
-        key.args[0].id == v:
-      return g.iter.id
-    return None
+    kind = _key_kind(key, g.target.id)
+    if kind is None:
+      return None
+    return g.iter.id, kind, src(key)
   if isinstance(node, ast.Call) and len(node.args) == 1 and not node.keywords:
     d = dotted(node.func)
     a = node.args[0]
     if d in ("set", "frozenset", "dict.fromkeys", "collections.Counter",
              "Counter"):
       if isinstance(a, ast.Name):
-        return a.id
+        return a.id, "identity", a.id + "[i]"
       if isinstance(a, (ast.GeneratorExp, ast.ListComp)):
-        return _set_over(ast.SetComp(elt=a.elt, generators=a.generators))
+        return _set_over_kind(ast.SetComp(elt=a.elt, generators=a.generators))
+      if isinstance(a, ast.Call) and dotted(a.func) == "map" and \
+          len(a.args) == 2 and not a.keywords and isinstance(a.args[1], ast.Name):
+        f = a.args[0]
+        if isinstance(f, ast.Lambda) and len(f.args.args) == 1 and not (
+            f.args.posonlyargs or f.args.kwonlyargs or f.args.vararg
+            or f.args.kwarg):
+          kind = _key_kind(f.body, f.args.args[0].arg)
+          ks = src(f.body)
+        else:
+          kind = _key_kind(ast.Call(func=f, args=[ast.Name(id="_", ctx=ast.Load())],
+                                    keywords=[]), "_")
+          ks = src(f) + "(_)"
+        if kind is not None:
+          return a.args[1].id, kind, ks
   return None
 
 
-def _dup_compare(test):
-  """-> (list_name, fires_on_duplicate: bool) for len(set(x)) <op> len(x)."""
+def _set_over(node):
+  """If node builds a set/dict keyed by the elements (or their id) of a name,
+  returns that name."""
+  r = _set_over_kind(node)
+  return r[0] if r is not None and r[1] == "identity" else None
+
+
+def _dup_compare_ex(test):
+  """-> (list_name, fires_on_duplicate: bool, key kind, key source) for
+  len(set(f(v) for v in x)) <op> len(x)."""
   if not (isinstance(test, ast.Compare) and len(test.ops) == 1):
     return None
   l, r = _len_arg(test.left), _len_arg(test.comparators[0])
   if l is None or r is None:
     return None
   op = type(test.ops[0])
-  if isinstance(r, ast.Name) and _set_over(l) == r.id:      # len(set) op len(x)
-    return r.id, {ast.NotEq: True, ast.Lt: True, ast.Eq: False,
-                  ast.GtE: False}.get(op)
-  if isinstance(l, ast.Name) and _set_over(r) == l.id:      # len(x) op len(set)
-    return l.id, {ast.NotEq: True, ast.Gt: True, ast.Eq: False,
-                  ast.LtE: False}.get(op)
+  so = _set_over_kind(l)
+  if isinstance(r, ast.Name) and so is not None and so[0] == r.id:
+    return (r.id, {ast.NotEq: True, ast.Lt: True, ast.Eq: False,
+                   ast.GtE: False}.get(op)) + so[1:]      # len(set) op len(x)
+  so = _set_over_kind(r)
+  if isinstance(l, ast.Name) and so is not None and so[0] == l.id:
+    return (l.id, {ast.NotEq: True, ast.Gt: True, ast.Eq: False,
+                   ast.LtE: False}.get(op)) + so[1:]      # len(x) op len(set)
   return None
+
+
+def _dup_compare(test):
+  """-> (list_name, fires_on_duplicate: bool) for len(set(x)) <op> len(x)
+  (identity-keyed sets only)."""
+  r = _dup_compare_ex(test)
+  return r[:2] if r is not None and r[2] == "identity" else None
 
 
 def _bases_root(defs, name, stmt, what, depth=0):
@@ -1221,7 +1279,7 @@ def _bases_root(defs, name, stmt, what, depth=0):
   return d
 
 
-@rule("R10.5", "C10", floor=1)
+@rule("R10.5", "C10", floor=2)
 def r10_5(ctx):
   """A repeated direct base is rejected with MROError before the merge."""
   mod = get_module(ctx, MIXIN)
@@ -1248,7 +1306,7 @@ def r10_5(ctx):
   for r in raises:
     hit = None
     for test, pol in flow.guards(mod.parent, r, stop=fn):
-      dc = _dup_compare(test)
+      dc = _dup_compare_ex(test)
       if dc is not None:
         hit = (test, pol, dc)
     if hit is None:
@@ -1256,14 +1314,14 @@ def r10_5(ctx):
     else:
       found = (r,) + hit
   if found is None:
-    if unknown or any(_dup_compare(n) for n in ast.walk(fn)
+    if unknown or any(_dup_compare_ex(n) for n in ast.walk(fn)
                       if isinstance(n, ast.Compare)):
       raise AnalysisError(
           f"{qual}: raises MROError / compares lengths in a way the "
           "duplicate-test idioms (len(set(x)) != len(x)) do not cover")
     vm = _inlined(ctx, get_module(ctx, VMU),
                   get_module(ctx, VMU).func("make_class"))[1]
-    if any(_dup_compare(n) for n in ast.walk(vm) if isinstance(n, ast.Compare)) \
+    if any(_dup_compare_ex(n) for n in ast.walk(vm) if isinstance(n, ast.Compare)) \
         or any(isinstance(n, ast.Raise) and _exc_name(n.exc) == "MROError"
                for n in ast.walk(vm)):
       raise AnalysisError(
@@ -1274,7 +1332,7 @@ def r10_5(ctx):
             "accepted where CPython raises TypeError (duplicate base class)",
             {"raises_MROError": 0})
     return
-  r, test, pol, (lst, fires_on_dup) = found
+  r, test, pol, (lst, fires_on_dup, key_kind, key_src) = found
   if fires_on_dup is None:
     raise AnalysisError(f"{qual}: comparison operator in `{src(test)}` unknown")
   fires = fires_on_dup if pol else not fires_on_dup
@@ -1295,6 +1353,18 @@ def r10_5(ctx):
             "the duplicate test must raise MROError exactly when the direct "
             "bases contain a repeated class, over the same bases the merge "
             f"uses, on every path to MROMerge: {facts}", facts)
+  # what the test compares: CPython's duplicate-base test compares the base
+  # objects themselves (identity); a projection of a base (its name, its
+  # full_name, its type ...) is shared by distinct classes, so a class with two
+  # different same-named bases would get an mro-error CPython does not raise
+  ctx.check(key_kind == "identity", f"{qual}:duplicate-test-compares-identities",
+            MIXIN, test.lineno,
+            f"the repeated-base test builds its set from `{key_src}`, a "
+            "projection that two distinct class objects can share (classes "
+            "made by two factories, a rebound class name): such bases are "
+            "reported as duplicates and the class gets an [mro-error] although "
+            "CPython creates it; compare the bases themselves or id(base)",
+            {"key": key_src, "kind": key_kind, "test": src(test)})
 
 
 # -- R10.6 ---------------------------------------------------------------------
